@@ -87,6 +87,49 @@ fn tiny_sessions() -> Vec<SenderScn> {
     v
 }
 
+/// One object with thousands of source blocks (decoded blocks pile up behind a missing FDT or a missing first block).
+fn gen_many_blocks_session(rng: &mut Rng) -> SenderScn {
+    let mut spec = SenderSpec::basic(OtiSpec::new(Scheme::NoCode, 1400, 64, 0, true));
+    spec.interleave = 1;
+    spec.queues = vec![(0, 1)];
+    spec.fdt_carousel = CarouselSpec::DelayMs(50);
+    let blocks = rng.range(2050, 4090);
+    let (scheme, e, b, parity) = if rng.chance(0.7) { (Scheme::NoCode, 16u16, 1u32, 0u32) } else { (Scheme::Rs28Us, 4u16, 1u32, 1u32) };
+    let mut o = ObjectSpec::basic((blocks * b as u64 * e as u64) as usize, rng.next_u64(), 0);
+    o.oti = Some(OtiSpec::new(scheme, e, b, parity, true));
+    o.max_transfer_count = *rng.pick(&[1u32, 2]);
+    let ops = vec![TimedOp { when: When::AtUs(0), op: Op::Add(0) }, TimedOp { when: When::AtUs(0), op: Op::Publish }];
+    let poll = PollSpec { start_us: 0, gap: GapSpec::FixedUs(1000), burst: None, max_polls: 400, max_pkts: 20_000, idle_polls_after_done: 120 };
+    SenderScn { spec, objects: vec![o], ops, poll, snapshots: false }
+}
+
+/// Object A is removed during its first transfer (which carries on) and a publication made right then - for another
+/// object - no longer lists it: A is announced only by the OLDER instance, which is still valid.
+fn gen_delisted_session(rng: &mut Rng) -> SenderScn {
+    let mut spec = SenderSpec::basic(OtiSpec::new(Scheme::NoCode, 1400, 64, 0, true));
+    spec.full_fdt = true;
+    spec.interleave = rng.range(1, 3) as u8;
+    spec.queues = vec![(0, 1)];
+    spec.fdt_carousel = CarouselSpec::DelayMs(*rng.pick(&[20u64, 1000]));
+    let scheme = *rng.pick(&[Scheme::Rs28, Scheme::Rs28Us, Scheme::NoCode]);
+    let (e, b) = (*rng.pick(&[4u16, 16, 64]), rng.range(2, 5) as u32);
+    let parity = if scheme == Scheme::NoCode { 0 } else { rng.range(1, 3) as u32 };
+    let mut a = ObjectSpec::basic((rng.range(2, 5) * b as u64 * e as u64) as usize, rng.next_u64(), 0);
+    a.oti = Some(OtiSpec::new(scheme, e, b, parity, rng.chance(0.5)));
+    let mut bb = ObjectSpec::basic(rng.range(1, 200) as usize, rng.next_u64(), 1);
+    bb.oti = Some(OtiSpec::new(Scheme::NoCode, 16, 4, 0, true));
+    let k = rng.range(2, 8);
+    let ops = vec![
+        TimedOp { when: When::AtUs(0), op: Op::Add(0) },
+        TimedOp { when: When::AtUs(0), op: Op::Publish },
+        TimedOp { when: When::AfterPkt(k), op: Op::Remove(0) },
+        TimedOp { when: When::AfterPkt(k), op: Op::Add(1) },
+        TimedOp { when: When::AfterPkt(k), op: Op::Publish },
+    ];
+    let poll = PollSpec { start_us: 0, gap: GapSpec::FixedUs(1000), burst: Some(rng.range(1, 4) as u32), max_polls: 2000, max_pkts: 2000, idle_polls_after_done: 2 };
+    SenderScn { spec, objects: vec![a, bb], ops, poll, snapshots: false }
+}
+
 fn gen_sampled_session(rng: &mut Rng) -> SenderScn {
     let soti = gen_sender_oti(rng, None);
     let mut spec = SenderSpec::basic(soti);
@@ -162,7 +205,21 @@ pub fn gen(idx: u64, tier: Tier, rng: &mut Rng) -> Scn {
             },
         };
     }
-    let sender = gen_sampled_session(rng);
+    let special = rng.below(100);
+    let sender = match special {
+        0 => gen_many_blocks_session(rng),
+        1..=5 => gen_delisted_session(rng),
+        _ => gen_sampled_session(rng),
+    };
+    if special == 0 {
+        // a few packets lost (the first block, one late block), or the first FDT transmission
+        let loss = if rng.chance(0.5) {
+            Loss::Sampled { p_drop: 0.0003, burst: None, p_dup: 0.0, drop_first_fdt: true }
+        } else {
+            Loss::Threshold { delta: 0, pref: 0, p_dup: 0.0, drop_first_fdt: rng.chance(0.5) }
+        };
+        return Scn { sender, recv, loss };
+    }
     recv.md5_check = rng.chance(0.8);
     let loss = if rng.chance(0.5) {
         Loss::Sampled {
